@@ -82,6 +82,65 @@ def same(a, b):
         {k: float(v) for k, v in (a.best_para or {}).items()} == {k: float(v) for k, v in (b.best_para or {}).items()}
 
 
+def _defaults_snapshot(cls):
+    """deep copy of every default argument value along the MRO (a mutable default that a run alters is hidden state
+    shared by later instances: the run is then no longer a function of (random_state, arguments))"""
+    snap = {}
+    for k in cls.__mro__:
+        init = k.__dict__.get("__init__")
+        if init is None or not hasattr(init, "__defaults__"):
+            continue
+        snap[k.__qualname__] = (copy.deepcopy(init.__defaults__), copy.deepcopy(init.__kwdefaults__))
+    return snap
+
+
+def _dims_space(n_dims, size):
+    return {f"x{i}": np.arange(-(size // 2), size - size // 2, 1) for i in range(n_dims)}
+
+
+def repeat_cases(r, quick):
+    """configurations whose start-up tops up or reshapes the initialisation (large populations, many dimensions) and
+    plain ones; `how` says how the `initialize` argument is supplied"""
+    out = []
+    for name in gen.ALL_OPTIMIZERS:
+        variants = [dict(n_dims=2, size=9, kw={})]
+        if name in gen.POPULATION:
+            variants.append(dict(n_dims=2, size=9, kw={"population": r.choice([11, 13, 15, 20])}))
+        if name == "DownhillSimplexOptimizer":
+            variants.append(dict(n_dims=r.choice([10, 11, 12]), size=5, kw={}))
+        if name in gen.SMBO and quick:
+            variants = variants[:1]
+        for v in variants:
+            for how in ("default", "shared-dict"):
+                out.append(dict(opt=name, how=how, n_iter=8 if name in gen.SMBO else 25, **v))
+    return out
+
+
+def repeat_runs(case, s):
+    """three optimizers built one after the other IN THIS PROCESS with identical arguments"""
+    cls = gen.get_class(case["opt"])
+    space = _dims_space(case["n_dims"], case["size"])
+    names = list(space)
+
+    def f(p):
+        return -sum((float(p[k]) - 1) ** 2 for k in names)
+    shared = {"grid": 3, "random": 2, "vertices": 2}
+    shared0 = copy.deepcopy(shared)
+    before = _defaults_snapshot(cls)
+    runs = []
+    for k in range(3):
+        ambient(k)
+        kw = dict(case["kw"])
+        if case["how"] == "shared-dict":
+            kw["initialize"] = shared
+        opt = cls(space, random_state=s, **kw)
+        with scen.time_limit(scen.WATCHDOG_S * 2):
+            opt.search(f, n_iter=case["n_iter"], verbosity=False)
+        runs.append(opt)
+    after = _defaults_snapshot(cls)
+    return runs, repr(before) == repr(after), shared == shared0
+
+
 def cases(r, quick):
     out = []
     for name in gen.ALL_OPTIMIZERS:
@@ -151,6 +210,35 @@ def run():
         n, fails, keys, dis = st
         chk.corr("RNG event traces of real constructions vs the seeding grammar of the model / generated seedFnOrder", n // 2, dis, keys)
         chk.monitor("paired runs: same integer seed under different ambient generator states; random_state=None reproduced by random_seed; nth_process offset", n, fails)
+    def stage2():
+        fails, keys, n = [], set(), 0
+        for case in repeat_cases(r, quick):
+            s = r.randrange(0, 2 ** 31 - 3)
+            tag = f"{case['opt']}|{case['how']}|{sorted(case['kw'])}|dims={case['n_dims']}"
+            try:
+                runs, defaults_same, shared_same = repeat_runs(case, s)
+            except scen.StepTimeout:
+                D.SKIPPED_RAISES.append(f"{tag}: watchdog (C08)")
+                continue
+            except C.Infra:
+                raise
+            except Exception as e:  # noqa
+                D.SKIPPED_RAISES.append(f"{tag}: {type(e).__name__}")
+                continue
+            n += 3
+            for k in (1, 2):
+                if not same(runs[0], runs[k]):
+                    fails.append(dict(signature=f"C07|{tag}|same-seed-same-arguments-run-{k + 1}-differs-from-run-1",
+                                      detail=f"random_state={s}: optimizer number {k + 1} built in the same process with identical arguments does not reproduce the first", case=dict(case, random_state=s)))
+                    break
+            # (a mutated default / caller dict alone is not a verdict: the property is about the runs; it only feeds the key)
+            keys.add((case["opt"], case["how"], tuple(sorted(case["kw"])), case["n_dims"], defaults_same, shared_same))
+        return n, fails, keys
+
+    st2 = chk.stage("repeated construction in one process", stage2)
+    if st2:
+        n2, fails2, keys2 = st2
+        chk.monitor("three optimizers built one after the other in one process with identical (default / shared) arguments reproduce each other", n2, fails2, keys2)
     chk.assumptions.append("the generators (Mersenne Twister, numpy legacy RandomState, sklearn drawing from numpy's singleton) are deterministic functions of their state; "
                            "the ast census (harness/translators.py:gen_entropy) can miss dynamically constructed entropy (getattr/eval) - none exists today")
     scen.shutdown_manager()
